@@ -27,7 +27,8 @@ namespace Kopf.C12
 /-- `delays` as configured. A scalar is *not* iterable: `iter(delays)` raises TypeError. -/
 inductive Delays where
   | scalar (d : Int)
-  | seq (nth : Nat → Option Int)     -- finite list, tuple, re-iterable or infinite generator
+  | seq (nth : Nat → Option Int)     -- finite list, tuple, or a RE-ITERABLE (possibly infinite) object;
+                                     -- a one-shot generator shared by all objects is excluded (ASSUMPTIONS)
   deriving Inhabited
 
 def Delays.ofList (l : List Int) : Delays := .seq (fun i => l[i]?)
@@ -141,11 +142,47 @@ def cycles (cfg : Delays) : Throttler → Int → List (CycleIn × Nat) → List
     let o := cycle cfg s t i
     o :: cycles cfg o.st (o.fin + gap) rest
 
+/-- how long an uninterrupted `aiotime.sleep(d)` lasts -/
+def pauseLen (d : Int) : Int := if d ≤ 0 then 0 else d
+
+/-- the throttler after `p` consecutive (uninterrupted) errors under the list configuration `l`:
+    not active, `p` (at most `len l`) items consumed, the last one remembered -/
+def AfterErrors (l : List Int) (p : Nat) (s : Throttler) : Prop :=
+  s.activeUntil = none ∧
+  ((p = 0 ∧ s.src = none ∧ s.last = none) ∨
+   (0 < p ∧ s.src = some (min p l.length) ∧ s.last = l[min p l.length - 1]?))
+
 /-- Per-object containment: throttlers live in per-object memories (`ResourceMemory.error_throttler`),
     keyed by the object. One cycle of object `k` touches only `k`'s throttler. -/
 def Memories := Nat → Throttler
 
 def stepObject (cfg : Delays) (m : Memories) (k : Nat) (t : Int) (i : CycleIn) : Memories :=
   fun k' => if k' = k then (cycle cfg (m k) t i).st else m k'
+
+/-- N objects on one clock: an arbitrary interleaving of cycles, each tagged with its object and
+    its start time (the environment — the per-object workers of `queueing.py` — decides both).
+    NB `settings.queueing.worker_limit = None` (the default): with a limit a sleeping worker keeps
+    its slot and other objects' workers wait, by design of that setting. -/
+structure Event where
+  obj : Nat
+  at_ : Int
+  inp : CycleIn
+
+def runProduct (cfg : Delays) : Memories → List Event → Memories × List (Nat × CycleOut)
+  | m, [] => (m, [])
+  | m, e :: rest =>
+    let o := cycle cfg (m e.obj) e.at_ e.inp
+    let r := runProduct cfg (stepObject cfg m e.obj e.at_ e.inp) rest
+    (r.1, (e.obj, o) :: r.2)
+
+/-- the same object alone: only its own events, on its own throttler -/
+def runSolo (cfg : Delays) (k : Nat) : Throttler → List Event → Throttler × List CycleOut
+  | s, [] => (s, [])
+  | s, e :: rest =>
+    if e.obj = k then
+      let o := cycle cfg s e.at_ e.inp
+      let r := runSolo cfg k o.st rest
+      (r.1, o :: r.2)
+    else runSolo cfg k s rest
 
 end Kopf.C12
